@@ -18,10 +18,10 @@ META = {
             "log-only / raise up to the length bound x every client operation sequence: k ticks then close | cancel | "
             "iterate, and uses of the session after a cancel x input-schema perturbation exact | reordered | int32->int64 "
             "| different field set) and checks the 15 clauses of StreamLifeClauses.tla on every reachable state "
-            "(quick: <=2 steps, <=2 leading ticks; thorough: <=4, <=4).  The enumerated calls are executed on a real pipe "
+            "(quick: <=2 steps, <=2 leading ticks; thorough: <=4, <=3).  The enumerated calls are executed on a real pipe "
             "connection (RpcServer.serve + RpcConnection) and over HTTP in-process (make_sync_client + http_connect) with "
             "state objects that record process()/on_cancel() calls and the schema they saw (thorough: every script with "
-            "<=3 steps and <=3 leading ticks plus a seeded quarter of the longer ones; quick: a seeded half), with seeded "
+            "<=3 steps and <=2 leading ticks plus a seeded quarter of the longer ones; quick: a seeded half), with seeded "
             "concrete variants (rows per batch 0/1/3, application metadata, input rows, four different-field-set and four "
             "compatible-type concretisations); TLC judges every recorded history with the same clause operators.",
     "note": "Trusted: lock-step determinism of the merged history (state events and client events interleave in one "
@@ -78,7 +78,7 @@ def run(ctx: Ctx) -> None:
     if getattr(ctx, "replay_record", None):
         return replay(ctx, ctx.replay_record)
     quick = ctx.quick
-    max_steps, max_ticks = (2, 2) if quick else (4, 4)
+    max_steps, max_ticks = (2, 2) if quick else (4, 3)     # a script of <= 4 steps is over by its 5th turn at the latest
 
     # (1) the intended design satisfies every clause on every reachable state; terminal states give the scripts
     r = model_check(ctx, wd, max_steps, max_ticks, True, f"StreamLife intended MaxSteps={max_steps} MaxTicks={max_ticks}", True)
@@ -110,9 +110,9 @@ def run(ctx: Ctx) -> None:
     skipped = 0
     for key in sorted(cases):
         sc, expect = cases[key]["script"], cases[key]["hist"]
-        # thorough: the model is exhaustive at (4, 4); every script with <= 3 steps and <= 3 leading ticks is replayed,
+        # thorough: the model is exhaustive at (4, 3); every script with <= 3 steps and <= 2 leading ticks is replayed,
         # the longest ones are replayed as a seeded 1-in-4 sample (concrete variants are drawn per script)
-        big = len(sc["steps"]) > 3 or sc["ops"][:4] == ["t"] * 4
+        big = len(sc["steps"]) > 3 or sc["ops"][:3] == ["t"] * 3
         if (big and rng.randrange(4)) or (quick and rng.randrange(2)):     # quick: a seeded half of the (2, 2) scripts
             skipped += 1
             continue
@@ -132,7 +132,7 @@ def run(ctx: Ctx) -> None:
             metas.append({"script": sc, "variant": variant, "x": x, "notes": res["notes"], "real": compact(res["hist"]),
                           "model": compact(expect)})
     # (3) TLC judges every recorded history with the clause operators of StreamLifeClauses
-    bad = U.judge(ctx, "wire", "StreamLifeClauses", obs)
+    bad = U.judge(ctx, "wire", "StreamLifeClauses", obs, chunk=40000)
     for idx, clauses in bad:
         m = metas[idx]
         sc = m["script"]
